@@ -640,7 +640,7 @@ def generate(rng, tier, scale=1):
                                           "num": [[k, v] for k, v in enumerate(b)],
                                           "den": [[k, v] for k, v in enumerate(a)],
                                           "mem": mem, "zero": "0/1" if a[0] != 2 else "7/1", "xs": xs})
-    nshapes = (400 if quick else 20000) * scale
+    nshapes = (1200 if quick else 20000) * scale
     max_order = 8
     max_len = 12 if quick else 64
     for _ in range(nshapes):
@@ -648,7 +648,7 @@ def generate(rng, tier, scale=1):
         for _ in range(3):
             cases.append(_case(rng, route, num, den, max_len))
     # malformed stream: negative delays, empty / all-zero denominators
-    for _ in range((60 if quick else 1500) * scale):
+    for _ in range((150 if quick else 1500) * scale):
         route = rng.choice(["dict", "zexpr", "list"])
         if route == "list":
             lead = rng.randint(1, 3)
